@@ -101,3 +101,59 @@ package cluster_info
 //@   lemma [finding-queue-cycles-self] forall k in queues :: queues[k].ParentQueue != k
 //@   lemma [finding-queue-cycles-two] forall k in queues :: queues[k].ParentQueue != "" && queues[k].ParentQueue != k ==> queues[queues[k].ParentQueue].ParentQueue != k
 //@ end
+
+// The queue map handed to UpdateQueueHierarchy: every value is a non-nil QueueInfo stored under its
+// own UID, with an empty child list (this is UpdateQueueHierarchy's precondition; the call in
+// Snapshot passes exactly this map).
+//@ func (*ClusterInfo).snapshotQueues
+//@   props C10
+//@   requires c != nil && c.dataLister != nil
+//@   note modifies *: the error path wraps the error with github.com/pkg/errors.WithStack (external, havoc); ProjectLevelFairness mode also overwrites Spec.ParentQueue of the listed (informer-cache) Queue objects
+//@   modifies *
+//@   loop 1
+//@     invariant 0 - 1 <= rangeindex && rangeindex < len(queues)
+//@     invariant result != nil && fresh(result)
+//@     invariant forall i int :: 0 <= i && i < len(queues) ==> queues[i] != nil
+//@     invariant keyed(result) && noChildren(result)
+//@   loop 2
+//@     invariant 0 - 1 <= rangeindex && rangeindex < len(queues)
+//@     invariant result != nil && fresh(result)
+//@     invariant forall i int :: 0 <= i && i < len(queues) ==> queues[i] != nil
+//@     invariant keyed(result) && noChildren(result)
+//@   ensures [establishesHierarchyPre] result1 == nil ==> keyed(result0) && noChildren(result0)
+//@ end
+
+// ---- C12: bind requests in the snapshot ---------------------------------------------------------
+// "The scheduler ... bind requests whose selected node no longer exists are deleted": every listed
+// request goes to exactly one side: selected node present in the snapshot => stored in the map
+// under the pod key; node absent and the request belongs to this scheduler's node pool => in the
+// list for deleted nodes; node absent and other node pool => dropped (not ours to delete).
+// poolMatch: the (external, assumed deterministic) label-selector match of the node-pool selector.
+//@ declare poolMatch(sel labels.Selector, ls map[string]string) bool
+
+//@ func k8s.io/apimachinery/pkg/labels.Selector.Matches
+//@   props C12
+//@   trusted
+//@   note external interface (k8s.io/apimachinery labels.Selector): assumed read-only and a deterministic function of the selector and the label set
+//@   pure
+//@   ensures result == poolMatch(recv, unbox(arg0, "labels.Set"))
+//@ end
+
+//@ define brOK(b *bindrequest_info.BindRequestInfo) bool = b != nil && b.BindRequest != nil && b.Name == b.BindRequest.Name && b.Namespace == b.BindRequest.Namespace
+//@ define brKey(r *schedulingv1alpha2.BindRequest) bindrequest_info.Key = bindrequest_info.objKey(r.Namespace, r.Spec.PodName)
+
+//@ func (*ClusterInfo).snapshotBindRequests
+//@   props C12
+//@   requires c != nil && c.dataLister != nil && c.nodePoolSelector != nil
+//@   loop 1
+//@     invariant 0 - 1 <= rangeindex && rangeindex < len(bindRequests)
+//@     invariant forall i int :: 0 <= i && i < len(bindRequests) ==> bindRequests[i] != nil
+//@     invariant result != nil && fresh(result)
+//@     invariant forall k in result :: brOK(result[k]) && result[k].BindRequest.Spec.SelectedNode in nodes && k == brKey(result[k].BindRequest) && (exists i int :: 0 <= i && i <= rangeindex && bindRequests[i] == result[k].BindRequest)
+//@     invariant forall j int :: 0 <= j && j < len(requestsForDeletedNodes) ==> brOK(requestsForDeletedNodes[j]) && !(requestsForDeletedNodes[j].BindRequest.Spec.SelectedNode in nodes) && poolMatch(c.nodePoolSelector, requestsForDeletedNodes[j].BindRequest.Labels) && (exists i int :: 0 <= i && i <= rangeindex && bindRequests[i] == requestsForDeletedNodes[j].BindRequest)
+//@     invariant forall i int :: 0 <= i && i <= rangeindex && bindRequests[i].Spec.SelectedNode in nodes ==> brKey(bindRequests[i]) in result
+//@     invariant forall i int :: 0 <= i && i <= rangeindex && !(bindRequests[i].Spec.SelectedNode in nodes) && poolMatch(c.nodePoolSelector, bindRequests[i].Labels) ==> (exists j int :: 0 <= j && j < len(requestsForDeletedNodes) && requestsForDeletedNodes[j].BindRequest == bindRequests[i])
+//@   ensures [listError] result2 != nil ==> result0 == nil && len(result1) == 0
+//@   ensures [mapOnlyLiveNodes] result2 == nil ==> result0 != nil && (forall k in result0 :: brOK(result0[k]) && result0[k].BindRequest.Spec.SelectedNode in nodes && k == brKey(result0[k].BindRequest))
+//@   ensures [deletedOnlyMissingNodesOfPool] result2 == nil ==> (forall j int :: 0 <= j && j < len(result1) ==> brOK(result1[j]) && !(result1[j].BindRequest.Spec.SelectedNode in nodes) && poolMatch(c.nodePoolSelector, result1[j].BindRequest.Labels))
+//@ end
